@@ -19,6 +19,11 @@ CLAIMS = {
    note="std::unordered_map is assumed to be a finite map; uint32 wrap-around of the revision counter is not modelled; switches name existing revisions.",
    technique="Lean 4 invariant proof over operation histories + differential correspondence of the model with the real template",
    ref="DESIGN.md §4 C20"),
+ "C01": dict(
+   text="PARTIAL by nature. Proved in Lean 4 (Props/C01.lean) on a skeleton of the parser's token protocol: for every token vector ending in the EOF sentinel and every sequence of consume/match/skipTo/ignore*/backtrack steps the cursor never passes the sentinel, so peek() never indexes outside the vector; every panic-mode recovery loop (stop sets REGENERATED from Parser.cpp by translators/recovery.py, obligation 'EOF is a stop token' by decide) terminates on a stop token or right after a terminator; look-ahead scans stay in bounds; the struct/union/enum member loop advances on every iteration for an arbitrary member parser; the shared nesting counter bounds depth by the declared limit and exceeding it is the only source of the exception. The protocol model is tied to the real Parser by running its cursor operations on lexed token vectors (all op sequences up to length 3 + random). NOT provable here and therefore exercised: C++ object lifetime, null dereference, stack depth, running time - generated valid/truncated/token-mutated/byte-mutated/unterminated/invalid-UTF-8/nested/token-soup inputs x random ParseOptions x syntax category are parsed, fully traversed and queried under NDEBUG, assert and ASan+UBSan builds; any crash, hang, sanitizer report or undeclared exception is a failing input (shrunk, replayable).",
+   note="Lexer cursor bounds/termination are covered under C05; nesting beyond limits in constructs without a declared limit (declarator/unary/initializer/if chains ~20k deep) is outside the property's quantifier and overflows the stack; the sweeps are sampling, not proof.",
+   technique="Lean 4 invariant proofs on a parser-protocol model (tables regenerated from source) + differential correspondence + sanitizer sweeps for the runtime part",
+   ref="DESIGN.md §4 C01"),
  "C08": dict(
    text="Lean 4 theorems (Props/C08.lean) over a transcription of visitBasicTypeSpecifier / visitVoidTypeSpecifier / visit_AtSpecifiers_COMMON: for every sequence of the eleven keywords, of any length and order, the invalid-type diagnostic is absent iff the keyword multiset is a row of C11 6.7.2p2 (+ lone _Complex), the bound type is then the row's type, verdicts are order-independent, interleaved qualifiers/storage classes are transparent, and an empty specifier list gives int + the missing-specifier diagnostic. Proof: the 43 reachable (state, multiset) pairs and their successors are evaluated by the kernel (decide), induction over the sequence lifts it to all lengths. The hand model is tied to the real binder exhaustively: all 16,104 sequences up to length 4 (thorough: 177,155 up to length 5) x variable/parameter/field/typedef position, with and without interleaved const/volatile/static/extern/register; the C11 table is the oracle.",
    note="Only the eleven keywords of the property; the binder is run up to bindDeclarations; after an invalid-type diagnostic the leftover type is not compared.",
